@@ -2,6 +2,7 @@
 import base64, itertools, json
 
 ID = "C15"
+CORPUS_FIRST = True
 RULE = ("jws.hdr / jwe.hdr for every presence pattern of a parameter across the 2 / 3 headers with conflicting values, "
         "protected header as object and as base64url text, wrong-typed and undecodable headers; producing calls with "
         "every key type/size/curve and the algorithm given in protected / unprotected / key / nowhere, after which the "
